@@ -14,8 +14,12 @@ Check (C07_block_string_refuted :
 Check (C07_surrogate_pair_refuted :
   exists inp, parse_operation_document 0 inp = PPanic P_char /\
               (exists t, string_at (skipn 7 inp) = Some t /\ t = [128512%N])).
-Check (C07_object_type_without_fields_refuted : parse_type_system_document 0 w_type_no_fields = PErr).
-Check (C07_union_without_members_refuted : parse_type_system_document 0 w_union_no_members = PErr).
+Check (C07_object_type_without_fields_parses :
+  exists d kw p n, parse_type_system_document 0 w_type_no_fields = POk d /\
+    d = [TSType (TDObject None p n [] [] [] kw)] /\ iname n = s "A" /\ ck_tsdoc w_type_no_fields 0 d = true).
+Check (C07_union_without_members_parses :
+  exists d kw p n, parse_type_system_document 0 w_union_no_members = POk d /\
+    d = [TSType (TDUnion None p n [] [] kw)] /\ iname n = s "U" /\ ck_tsdoc w_union_no_members 0 d = true).
 Check (C07_pairs_replayable : forall inp start ps p,
   parse_pairs start inp = Ok ps -> in_forest p ps -> replayable gql_grammar inp p).
 Check (C07_names_true : forall inp start ps file s e kids,
@@ -70,8 +74,8 @@ Print Assumptions C07_positions_true.
 Print Assumptions C07_lone_cr_refuted.
 Print Assumptions C07_block_string_refuted.
 Print Assumptions C07_surrogate_pair_refuted.
-Print Assumptions C07_object_type_without_fields_refuted.
-Print Assumptions C07_union_without_members_refuted.
+Print Assumptions C07_object_type_without_fields_parses.
+Print Assumptions C07_union_without_members_parses.
 Print Assumptions C07_pairs_replayable.
 Print Assumptions C07_names_true.
 Print Assumptions C07_keywords_true.
